@@ -1226,4 +1226,60 @@ theorem C17_proc_timeout {P β : Type} (o : BatchOps P) (flat : P → List β) (
     have := hsd.2.2
     omega
 
+
+/-! ### non-vacuity of the whole-processor theorems: an evaluated multi-shard run -/
+
+/-- executable form of `ArrTagged` -/
+def arrTaggedB {P β : Type} (o : BatchOps P) (c : Cfg) (flat : P → List β) (arr : β → Nat) : Proc P → List (POp P) → Bool
+  | _, [] => true
+  | pr, .arrive key p :: ops =>
+    (flat p).all (fun x => arr x == pr.now) &&
+      (match pr.arrive o c key p with
+       | some (pr', _) => arrTaggedB o c flat arr pr' ops
+       | none => arrTaggedB o c flat arr pr ops)
+  | pr, .advance dt :: ops => arrTaggedB o c flat arr (pr.advance o c dt).1 ops
+
+theorem arrTaggedB_sound {P β : Type} (o : BatchOps P) (c : Cfg) (flat : P → List β) (arr : β → Nat) :
+    ∀ (ops : List (POp P)) (pr : Proc P), arrTaggedB o c flat arr pr ops = true → ArrTagged o c flat arr pr ops := by
+  intro ops
+  induction ops with
+  | nil => intro _ _; trivial
+  | cons op ops ih =>
+    intro pr h
+    cases op with
+    | arrive key p =>
+      simp only [arrTaggedB, Bool.and_eq_true, List.all_eq_true, beq_iff_eq] at h
+      simp only [ArrTagged]
+      refine ⟨h.1, ?_⟩
+      cases ha : pr.arrive o c key p with
+      | none => rw [ha] at h; exact ih pr h.2
+      | some x => obtain ⟨pr', es⟩ := x; rw [ha] at h; exact ih pr' h.2
+    | advance dt =>
+      simp only [arrTaggedB] at h
+      exact ih _ h
+
+def exCfg : Cfg := { sbs := 2, max := 2, timeout := 100, nkeys := 1, limit := 2 }
+def exP (ids : List Nat) : List Res := [⟨⟨1, 0, 0⟩, [⟨⟨2, 0, 0, 0, 0⟩, ids.map (fun i => ⟨i, 0, 1⟩)⟩]⟩]
+/-- two groups, a third one refused at the cardinality limit, a time step that fires both timers, a late arrival -/
+def exOps : List (POp (List Res)) :=
+  [.arrive [[1]] (exP [10, 11, 12]), .arrive [[2]] (exP [20]), .arrive [[3]] (exP [30]), .advance 150, .arrive [[1]] (exP [13])]
+
+/-- the run: group 1 sends [10,11] at once, both timers fire at t=100 ([12] and [20]), request 30 is refused (not accepted,
+not emitted), [13] leaves at shutdown (t=150) -/
+example :
+    ((Proc.runOps logsBatch exCfg flatten (Proc.init logsBatch exCfg) exOps).2.1 ++
+      ((Proc.runOps logsBatch exCfg flatten (Proc.init logsBatch exCfg) exOps).1.shutdown logsBatch exCfg).2).map
+      (fun e => (e.t, e.key, (flatten e.p).map (·.2.2.id))) =
+      [(0, [[1]], [10, 11]), (100, [[1]], [12]), (100, [[2]], [20]), (150, [[1]], [13])] ∧
+    (Proc.runOps logsBatch exCfg flatten (Proc.init logsBatch exCfg) exOps).2.2.map (·.2.2.id) = [10, 11, 12, 20, 13] := by decide
+
+/-- the hypotheses of `C17_proc_metadata_isolation` and `C17_proc_timeout` hold for this run -/
+example : OpsTagged flatten (fun x => [[x.2.2.id / 10]]) exOps ∧ exCfg.valid ∧ hasTimer exCfg = true := by
+  refine ⟨?_, Or.inr (by decide), by decide⟩
+  simp only [exOps, OpsTagged]
+  refine ⟨by decide, by decide, by decide, by decide, trivial⟩
+
+example : ArrTagged logsBatch exCfg flatten (fun x => if x.2.2.id = 13 then 150 else 0) (Proc.init logsBatch exCfg) exOps :=
+  arrTaggedB_sound _ _ _ _ _ _ (by decide)
+
 end OtelVerif.C17
